@@ -12,7 +12,7 @@ RULE = ("one process per module: parsec_init(1, --mca mca_sched X), context neve
         "(highest priority, ties in scheduling/ring order, exact task identity); spq = lexicographic (smallest distance, highest priority, earliest) "
         "and reported distance = scheduled distance; ip = returned priority is the minimum pending one (tie order free); NULL iff nothing pending. "
         "non-trivial = some select had to decide a tie between equal-priority tasks of different schedule calls (spq: additionally two distances "
-        "pending at once); distinct = distinct sequence texts. exhaustive part = all sequences up to length 6 (spq 5) over {select, schedule "
+        "pending at once); distinct = distinct sequence texts. exhaustive part = all sequences up to length 5 (spq 4; thorough: 6 / 5) over {select, schedule "
         "[0],[1],[1,0],[1,1],[0,0]} x distance {0} (spq {0,1})")
 
 
@@ -44,7 +44,7 @@ def run(tier, seed, res):
                        "HIGHER_IS_BETTER priority order of this build"]
     jobs = []
     for m in MODULES:
-        L = 5 if m == "spq" else 6
+        L = 4 if m == "spq" else 5
         parts = 4
         for p in range(parts):
             jobs.append(dict(cmd=[b, "exh", m, str(L if quick else L + 1), str(p), str(parts)], tag="exh:" + m, timeout=3600))
@@ -52,10 +52,10 @@ def run(tier, seed, res):
     res.absorb(wr, "exhaustive")
     res.coverage["exhaustive"] = not (wr.failures or wr.crashes)
     res.coverage["exhaustive_subspace"] = ("per module every op sequence of length <= %s over {select, schedule [0],[1],[1,0],[1,1],[0,0]} "
-                                           "x distance {0} (spq: {0,1}, length <= %s)" % ((6, 5) if quick else (7, 6)))
+                                           "x distance {0} (spq: {0,1}, length <= %s)" % ((5, 4) if quick else (6, 5)))
     _collect(res, wr)
-    nproc = 5
-    per = 4000 if quick else 400000
+    nproc = 4
+    per = 1500 if quick else 500000
     jobs = []
     for i, m in enumerate(MODULES):
         for k in range(nproc):
